@@ -46,6 +46,8 @@ pub enum Writer {
     /// non-tail anchors only.)
     Checkpoint,
     Cursor,
+    /// a second auto compaction (stride 1, two checkpoints): concurrent schedule / auto calls (C09)
+    AutoCompaction,
 }
 
 #[derive(Clone, Copy, Debug, PartialEq, Eq, Hash)]
@@ -190,6 +192,7 @@ fn write(fx: &Fx, thread: &str, msgs: &[String], last_sess: &str, w: Writer) -> 
                 ripd::CompactionCheckpointCumulativeV1Request { summary_markdown: Some("racing".into()), summary_artifact_id: None, to_message_id: Some(last.clone()), to_seq: None, stride_messages: None, actor_id: "u".into(), origin: "o".into() },
             )
             .map(|_| ()),
+        Writer::AutoCompaction => store.compaction_auto_v1(thread, ripd::CompactionAutoV1Request { stride_messages: Some(1), max_new_checkpoints: Some(2), dry_run: Some(false), actor_id: "u".into(), origin: "o".into() }).map(|_| ()),
         Writer::Cursor => store.verif_append_provider_cursor_updated(thread, "openresponses", Some("http://e".into()), Some("m".into()), Some(json!({"previous_response_id": "r9"})), "set", None).map(|_| ()),
     }
 }
@@ -338,6 +341,10 @@ pub fn run_config(report: &Report, prop: &'static str, pre: Pre, r: Reader, w: W
                 // concurrent appends; what the race may do to the caches is judged below
                 if g != before && g != after && r == Reader::Status {
                     report.count("race_status_answers_mixing_both_states_not_judged", 1);
+                } else if g != before && g != after && w == Writer::AutoCompaction {
+                    // the writer appends several frames: the reader may lawfully see a state in between
+                    // (only the post-conditions below are judged for this pairing)
+                    report.count("race_answers_between_the_frames_of_a_multi_frame_writer_not_judged", 1);
                 } else if g != before && g != after {
                     report.violation(
                         &format!("{prop}:race:answer_of_neither_order:{r:?}|{w:?}:{pre:?}"),
@@ -345,6 +352,27 @@ pub fn run_config(report: &Report, prop: &'static str, pre: Pre, r: Reader, w: W
                         &format!("the reader's answer is neither the answer before the append nor the one after it: got {} ; before {} ; after {}", crate::common::compact(&got, 500), &before[..before.len().min(400)], &after[..after.len().min(400)]),
                     );
                     return;
+                }
+                // afterwards: every background job of the thread was spawned once and ended at most once
+                {
+                    let ev = world.b.fx.truth(rip_kernel::StreamKind::Continuity, &world.b.thread);
+                    let mut spawned = std::collections::BTreeSet::new();
+                    let mut ended = std::collections::BTreeSet::new();
+                    for e in &ev {
+                        match &e.kind {
+                            rip_kernel::EventKind::ContinuityJobSpawned { job_id, .. } => {
+                                if !spawned.insert(job_id.clone()) {
+                                    report.violation(&format!("{prop}:race:job_spawned_twice:{label}"), case(), "two job_spawned frames carry one job id");
+                                }
+                            }
+                            rip_kernel::EventKind::ContinuityJobEnded { job_id, .. } => {
+                                if !spawned.contains(job_id) || !ended.insert(job_id.clone()) {
+                                    report.violation(&format!("{prop}:race:job_end_grammar:{label}"), case(), "a job_ended frame without its job_spawned before it, or a second job_ended");
+                                }
+                            }
+                            _ => {}
+                        }
+                    }
                 }
                 // afterwards: the log validates and the caches the race left behind are transparent
                 if let Err(e) = world.b.fx.validated() {
@@ -415,7 +443,9 @@ pub fn worker(opts: Opts, prop: &'static str, level: &'static str, spec: &str) -
         all
     };
     let r = parse(&readers, v["reader"].as_str().unwrap_or("")).unwrap_or(Reader::Replay);
-    let w = parse(&WRITERS, v["writer"].as_str().unwrap_or("")).unwrap_or(Writer::Message);
+    let mut writers = WRITERS.to_vec();
+    writers.push(Writer::AutoCompaction);
+    let w = parse(&writers, v["writer"].as_str().unwrap_or("")).unwrap_or(Writer::Message);
     let bound = v["bound"].as_u64().unwrap_or(1) as usize;
     run_config(&report, prop, pre, r, w, bound);
     report.finish()
